@@ -4,6 +4,7 @@ import (
 	"fmt"
 	"go/types"
 	"regexp"
+	"sort"
 	"strings"
 
 	"github.com/dave/jennifer/jen"
@@ -114,6 +115,20 @@ func Parse(obj types.Object, opts *ParseOpts, localOpts LocalOpts) (*Definition,
 		}
 
 		methodDef.RawArgs = append(methodDef.RawArgs, arg)
+	}
+	var unknownContexts []string
+	for name := range localOpts.Context {
+		found := false
+		for _, arg := range methodDef.RawArgs {
+			found = found || arg.Name == name
+		}
+		if !found {
+			unknownContexts = append(unknownContexts, name)
+		}
+	}
+	if len(unknownContexts) > 0 {
+		sort.Strings(unknownContexts)
+		return nil, formatErr(fmt.Sprintf("Argument %q must exist when using 'goverter:context %s'", unknownContexts[0], unknownContexts[0]))
 	}
 	if !methodDef.UpdateTarget && opts.UpdateParam != "" {
 		return nil, formatErr(fmt.Sprintf("Argument %q must exist when using 'goverter:target %s'", opts.UpdateParam, opts.UpdateParam))
